@@ -9,7 +9,7 @@ EXPLANATION = ("For gix-worktree-stream's private pipe protocol: mode_to_byte/by
                "writer's HEADER_LEN; both sides put path length in the first usize slot, stream length in the second, mode in byte 0 and hash kind "
                "in byte 1 (provenance of the split_at results); the chunk-length prefix of write_stream is a u16 and its buffer is capped at "
                "u16::MAX on every path to a read (must-pass through the Ok edge of clear_and_set_len(buf, BUF_LEN)); in gix_archive::write every appending call (io::copy, read_to_end, extend, write_all, push) into the shared scratch "
-               "buffer is preceded by a clear() of it on every path (sibling agreement of the tar and zip writers). Entry::read marks the end of an entry only behind a non-empty-buffer test. Equality of archive contents with `git archive` is not decided.")
+               "buffer is preceded by a clear() of it on every path (sibling agreement of the tar and zip writers). Entry::read marks the end of an entry only behind a non-empty-buffer test. Every Visit::push_back_tracked_path_component implementation queues a clone of the tracked path and never moves the path out. Equality of archive contents with `git archive` is not decided.")
 P = "gix_worktree_stream::protocol::"
 
 
